@@ -236,10 +236,16 @@ const TEMPLATES: &[(&str, &str)] = &[
     ("arc.html", "{{ xs }}{{ [...xs, a] }}{{ {...o, \"z\": b} }}"),
     // unescaped writes
     ("plain.txt", "{{ a }}-{{ b }}-{{ xs }}"),
+    // tera-contrib's regex_replace keeps a cache of compiled patterns behind a lock: the same
+    // pattern with a literal replacement and with one that uses groups
+    ("rxmask.html", "{{ email | regex_replace(pattern=pat, rep=\"<hidden>\") }}"),
+    ("rxswap.html", "{{ email | regex_replace(pattern=pat, rep=\"$2 at $1\") }}{{ email is matching(pat=pat) }}"),
 ];
 
 fn build_tera() -> Tera {
     let mut t = Tera::default();
+    t.register_filter("regex_replace", tera_contrib::regex::RegexReplace::default());
+    t.register_test("matching", tera_contrib::regex::Matching::default());
     t.add_raw_templates(TEMPLATES.iter().copied()).expect("harness templates must load");
     t
 }
@@ -258,6 +264,8 @@ fn contexts() -> Vec<Context> {
         let mut m = std::collections::BTreeMap::new();
         m.insert("k", k);
         c.insert("o", &m);
+        c.insert("email", "bob@example");
+        c.insert("pat", r"(\w+)@(\w+)");
         out.push(c);
     }
     out
@@ -350,6 +358,7 @@ fn groups() -> Vec<(&'static str, &'static str, Vec<Action>)> {
         ("one-off", "render_str compiles a template at run time on the shared instance", vec![act(Str("{{ a | upper }}{{ b }}", true), 0), act(Render("esc.html"), 1)]),
         ("same-ctx", "same template AND same context object on both threads", vec![act(Render("esc3.html"), 0), act(Render("esc3.html"), 0)]),
         ("plain", "unescaped writes of shared values", vec![act(Render("plain.txt"), 0), act(RenderTo("plain.txt"), 2)]),
+        ("regex-cache", "tera-contrib regex_replace / matching caches: one pattern, literal replacement vs groups", vec![act(Render("rxmask.html"), 0), act(Render("rxswap.html"), 1)]),
         // three threads
         ("3-esc", "escape scratch buffer, three threads", vec![act(Render("esc.html"), 0), act(Render("esc.html"), 1), act(Render("esc.html"), 2)]),
         ("3-mixed", "capture + loop + escape", vec![act(Render("cap.html"), 0), act(Render("loop.html"), 1), act(Render("esc3.html"), 2)]),
@@ -489,7 +498,11 @@ fn prepare(spec: &Spec) -> Prepared {
     let mut expected = vec![];
     let mut counts = vec![];
     for a in &spec.threads {
-        let (o, c) = profile(&tera, &ctxs, a);
+        // the reference of every action comes from an instance of its own (nothing an earlier
+        // action left behind can colour it); the yield counts from the shared one
+        let fresh = build_tera();
+        let (o, _) = profile(&fresh, &ctxs, a);
+        let (_, c) = profile(&tera, &ctxs, a);
         expected.push(o);
         counts.push(c);
     }
